@@ -450,6 +450,44 @@ func deferredCalls(body *ast.BlockStmt) []string {
 	return out
 }
 
+// timeoutFields lists "<func>: <what>" for every struct-literal field and every assignment to a selector whose name ends in
+// Timeout or Deadline (http.Server{ReadTimeout: ...}, client.Timeout = ..., net.Dialer{Timeout: ...}).
+func timeoutFields(p *pkg) []string {
+	fns := p.allFuncs()
+	var keys []string
+	for k := range fns {
+		keys = append(keys, k)
+	}
+	sort.Strings(keys)
+	isT := func(n string) bool { return strings.HasSuffix(n, "Timeout") || strings.HasSuffix(n, "Deadline") }
+	var out []string
+	for _, k := range keys {
+		ast.Inspect(fns[k].Body, func(n ast.Node) bool {
+			switch x := n.(type) {
+			case *ast.CompositeLit:
+				if x.Type == nil {
+					return true
+				}
+				for _, el := range x.Elts {
+					if kv, ok := el.(*ast.KeyValueExpr); ok {
+						if id, ok := kv.Key.(*ast.Ident); ok && isT(id.Name) {
+							out = append(out, k+": "+types.ExprString(x.Type)+"{"+id.Name+"}")
+						}
+					}
+				}
+			case *ast.AssignStmt:
+				for i, l := range x.Lhs {
+					if sel, ok := l.(*ast.SelectorExpr); ok && isT(sel.Sel.Name) && i < len(x.Rhs) {
+						out = append(out, k+": "+types.ExprString(l)+" = "+types.ExprString(x.Rhs[i]))
+					}
+				}
+			}
+			return true
+		})
+	}
+	return out
+}
+
 func strLit(e ast.Expr) (string, bool) {
 	if bl, ok := e.(*ast.BasicLit); ok && bl.Kind == token.STRING {
 		s, err := strconv.Unquote(bl.Value)
@@ -895,6 +933,23 @@ func main() {
 			})
 		}
 		{
+			var lc, tf []string
+			for _, d := range []string{"agent", "agent/utils", "agent/banner", "agent/sessions"} {
+				if mp, err := loadPkg(*repo, d); err == nil {
+					for _, c := range limitCalls(mp, nil) {
+						lc = append(lc, d+" "+c)
+					}
+					for _, c := range timeoutFields(mp) {
+						tf = append(tf, d+" "+c)
+					}
+				} else {
+					e.missing = append(e.missing, "agentLimitCalls:"+d)
+				}
+			}
+			e.strs("agentLimitCalls", lc, true, nil, "agent, agent/utils, agent/banner, agent/sessions: calls that set a deadline, a size limit or a socket option (none: nothing on the request or response path is cut off by the agent itself)")
+			e.strs("agentTimeoutFields", tf, true, []string{"agent runAdapter: client.Timeout = *proxyTimeout", "agent/sessions NewCache: Cache{sessionCookieTimeout}"}, "the same packages: timeout / deadline fields set (the proxy-facing client's -proxy-timeout and the session cookie lifetime, nothing on the backend side)")
+		}
+		{
 			ssc := u.funcDecl("ShutdownSignalChan")
 			e.strs("shutdownSignalPkgCalls", pkgCalls(ssc, "signal"), ssc != nil, []string{"signal.Notify"}, "agent/utils ShutdownSignalChan: calls into os/signal (the handler is registered and never unregistered)")
 			sigsArgs, ok := callArgs(ssc, "signal", "Notify", 1)
@@ -962,6 +1017,7 @@ func main() {
 					return true
 				})
 			}
+			e.strs("serverLimitCalls", append(limitCalls(s, nil), timeoutFields(s)...), true, nil, "server package: deadline / limit / socket-option calls and timeout fields (none)")
 			e.strs("serverHTTPServerFields", fields, true, nil, "server package: fields set in http.Server literals (none: no such literal)")
 		}
 		sh := s.methodDecl("proxy", "ServeHTTP")
